@@ -60,7 +60,7 @@ Lemma cmp_obligations_spec op l :
 Proof.
   unfold cmp_obligations. induction l as [|f l IH]; cbn [map flat_map]; [reflexivity|].
   rewrite IH. f_equal. unfold spec_cmp_field, fplan_cmp. cbn [cf_expr fp_used fp_ty].
-  rewrite <- selected_own_iff. destruct (selected op _); reflexivity.
+  rewrite <- selected_own_iff, <- sel_for_own. destruct (sel_for op _); reflexivity.
 Qed.
 
 Lemma eq_obligations_spec l :
@@ -68,8 +68,8 @@ Lemma eq_obligations_spec l :
   = flat_map (fun f => if fp_used (fplan_cmp CEq f) then [fp_ty (fplan_cmp CEq f)] else []) l.
 Proof.
   unfold eq_checks. rewrite map_map. induction l as [|f l IH]; cbn [map flat_map]; [reflexivity|].
-  rewrite IH. f_equal. unfold spec_cmp_field, fplan_cmp. cbn [cf_expr cf_fld fp_used fp_ty fst snd eq_check_of].
-  rewrite <- selected_own_iff. destruct (selected CEq _); reflexivity.
+  rewrite IH. f_equal. unfold spec_cmp_field, fplan_cmp. cbn [sel_for]. cbn [cf_expr cf_fld fp_used fp_ty fst snd eq_check_of].
+  rewrite <- selected_own_iff, <- (sel_for_own CEq). cbn [sel_for]. destruct (eq_selected _); reflexivity.
 Qed.
 
 Lemma find_filter {A} (p : A -> bool) l : find p l = match filter p l with x :: _ => Some x | [] => None end.
